@@ -326,30 +326,64 @@ Qed.
 Definition field_ok (all : list (string * expr)) (nf : string * expr) : Prop :=
   check (Cctx all false false) (snd nf) = Ok (snd nf) /\ aggr_field (snd nf) = Ok tt.
 
+(* re-pointing references changes nothing in a tree that holds none *)
+Lemma relink_plain : forall n d e, names_of e = [] -> relink n d e = e.
+Proof.
+  intros n d e. induction e using expr_induction; intros Hn; cbn [names_of] in Hn; cbn [relink];
+    try reflexivity; try discriminate.
+  - apply app_eq_nil in Hn. destruct Hn as [H1 H2]. rewrite IHe1, IHe2 by assumption. reflexivity.
+  - rewrite IHe by assumption. reflexivity.
+  - f_equal. induction H as [|a l Ha Hl IH]; [reflexivity|]. cbn [flat_map] in Hn.
+    apply app_eq_nil in Hn. destruct Hn as [H1 H2]. cbn [map]. rewrite Ha, IH by assumption. reflexivity.
+  - f_equal. induction H as [|a l Ha Hl IH]; [reflexivity|]. cbn [flat_map] in Hn.
+    apply app_eq_nil in Hn. destruct Hn as [H1 H2]. cbn [map]. rewrite Ha, IH by assumption. reflexivity.
+  - rewrite IHe1 by assumption. reflexivity.
+Qed.
+
+Lemma relink_fields_plain : forall n d fs, fields_plain fs -> relink_fields n d fs = fs.
+Proof.
+  intros n d fs H. induction H as [|[m f] l Hf Hl IH]; [reflexivity|]. cbn [relink_fields map fst snd] in *.
+  rewrite (relink_plain _ _ _ Hf). unfold relink_fields in IH. rewrite IH. reflexivity.
+Qed.
+
+Lemma relinked_done_plain : forall n d (done : list (string * expr)), fields_plain done ->
+  (if has_name n done then done else relink_fields n d done) = done.
+Proof. intros n d done H. destruct (has_name n done); [reflexivity|apply relink_fields_plain; exact H]. Qed.
+
 Lemma validate_fields_plain : forall todo done r,
+  fields_plain done ->
   fields_plain todo ->
   validate_fields fo true done todo = Ok r ->
   r = (done ++ todo)%list /\ Forall (field_ok (done ++ todo)%list) todo.
 Proof.
-  induction todo as [|[n f] todo IH]; intros done r Hp H; cbn [validate_fields] in H.
+  induction todo as [|[n f] todo IH]; intros done r Hd Hp H; cbn [validate_fields] in H.
   - inversion H; subst. rewrite app_nil_r. split; [reflexivity | constructor].
   - inversion Hp as [|? ? Hf Hp']; subst. cbn [snd] in Hf.
     inv_bind H as f2 Hf2 H. inv_bind H as u Hu H. destruct u.
     pose proof (check_plain_id _ _ Hf _ Hf2) as Hid. subst f2.
-    destruct (IH _ _ Hp' H) as [Hr Hrest].
+    rewrite (relinked_done_plain _ _ _ Hd) in H.
+    assert (Hd' : fields_plain (done ++ [(n, f)])%list).
+    { apply Forall_app. split; [exact Hd|]. constructor; [exact Hf|constructor]. }
+    destruct (IH _ _ Hd' Hp' H) as [Hr Hrest].
     rewrite <- app_assoc in Hr, Hrest. cbn [app] in Hr, Hrest.
     split; [exact Hr|]. constructor; [split; assumption | exact Hrest].
 Qed.
 
 Lemma validate_fields_intro : forall todo done,
+  fields_plain done ->
+  fields_plain todo ->
   Forall (field_ok (done ++ todo)%list) todo ->
   validate_fields fo true done todo = Ok (done ++ todo)%list.
 Proof.
-  induction todo as [|[n f] todo IH]; intros done H; cbn [validate_fields].
+  induction todo as [|[n f] todo IH]; intros done Hd Hp H; cbn [validate_fields].
   - rewrite app_nil_r. reflexivity.
   - inversion H as [|? ? [Hc Ha] Hrest]; subst. cbn [snd] in Hc, Ha.
+    inversion Hp as [|? ? Hf Hp']; subst. cbn [snd] in Hf.
     rewrite Hc. cbn [bind]. rewrite Ha. cbn [bind].
-    rewrite IH; rewrite <- app_assoc; [reflexivity | exact Hrest].
+    rewrite (relinked_done_plain _ _ _ Hd).
+    assert (Hd' : fields_plain (done ++ [(n, f)])%list).
+    { apply Forall_app. split; [exact Hd|]. constructor; [exact Hf|constructor]. }
+    rewrite IH; [rewrite <- app_assoc; reflexivity | exact Hd' | exact Hp' | rewrite <- app_assoc; exact Hrest].
 Qed.
 
 (* nested aggregates: the placement judgement implies the checker's test *)
@@ -446,7 +480,7 @@ Proof.
   cbn [check_stmt] in Hs1. unfold check_select in Hs1.
   inv_bind Hs1 as u Hord Hs1. destruct u. inv_bind Hs1 as w1 Hw1 Hs1. inv_bind Hs1 as u Hb Hs1. destruct u.
   inv_bind Hs1 as f2 Hf2 Hs1. inversion Hs1; subst s1. clear Hs1.
-  destruct (validate_fields_plain _ _ _ Hp Hf2) as [Hf2e Hfok]. cbn [app] in Hf2e, Hfok. subst f2.
+  destruct (validate_fields_plain _ _ _ (Forall_nil _) Hp Hf2) as [Hf2e Hfok]. cbn [app] in Hf2e, Hfok. subst f2.
   cbn [check_stmt_calls] in Hc. inv_bind Hc as u Hcw Hcf. destruct u. apply calls_fields_ok in Hcf.
   cbn [stmt_params_static] in Hps. apply andb_true_iff in Hps. destruct Hps as [Hpsf Hpsw].
   cbn [stmt_no_refs] in Hnr. apply andb_true_iff in Hnr. destruct Hnr as [Hnrf Hnrw].
@@ -519,8 +553,8 @@ Proof.
   unfold build_check. cbn [check_stmt]. unfold check_select. rewrite Ho. cbn [bind]. rewrite Hw1. cbn [bind].
   replace (where_bool (rewrite_name fields w1)) with (@Ok unit tt) by (symmetry; apply where_bool_ok; exact Htw).
   cbn [bind].
-  rewrite (validate_fields_intro fields [])
-    by (apply Forall_forall; intros nf Hin; apply (Hfields nf Hin)).
+  rewrite (validate_fields_intro fields [] (Forall_nil _))
+    by (first [assumption | apply Forall_forall; intros nf Hin; apply (Hfields nf Hin)]).
   cbn [bind app check_stmt_calls]. rewrite Hcw. cbn [bind].
   replace (calls_fields fields) with (@Ok unit tt); [reflexivity|].
   symmetry. apply calls_fields_ok. apply Forall_forall. intros nf Hin. apply (Hfields nf Hin).
